@@ -230,6 +230,11 @@ func (e *ExecutionEngine) Execute(ctx context.Context, operation *graphql.Reques
 		if remapReport.HasErrors() {
 			return remapReport
 		}
+		operation.SetVariablesRemap(remapVariables)
+	} else {
+		// The request was normalized - and its variables renamed - by an earlier execution:
+		// the document carries the canonical names, the table that maps them back is kept with it.
+		remapVariables = operation.VariablesRemap()
 	}
 
 	// Validate user-supplied and extracted variables against the (remapped) operation.
